@@ -36,7 +36,7 @@ EvWrite == IsEvent("write") /\ WWrite /\ writing.hi - writing.lo = Ev.a
 EvRecv == IsEvent("recv") /\ RBeginK(Ev.k, Ev.a)
 EvRead == IsEvent("read") /\ RFillReadN(Ev.a)
 EvRecvRet == /\ IsEvent("recvret") /\ REnd
-             /\ rstart = Ev.a /\ rend = Ev.b /\ recvdStat = Ev.c
+             /\ rend - rstart = Ev.b - Ev.a /\ recvdStat = Ev.c   \* the unread window, not where it sits in the buffer
 EvReset == /\ IsEvent("reset")
            /\ sop' = IdleS /\ sret' = "idle" /\ wpos' = 0 /\ cur' = 1 /\ produced' = 0
            /\ sentStat' = 0 /\ flushedStat' = 0 /\ nops' = 0 /\ closing' = "no"
